@@ -42,11 +42,20 @@
      period added by reindex()).  C17_cells_refine_traces links the two levels: on every array the class can build (cells None
      or Trace objects of their own — after __init__, copy(), reindex(): C17_tracer_init, C17_copy_..., C17_reindex_gives_...)
      the reference-level trace_t_cells IS the value-level trace_t, a None cell reading as the empty Trace (fix 3b0200f).
+   - KEPT FINDINGS (known_findings.d/C17.json).  (1) t OUTSIDE the span: trace_t runs before any validation of the base class, so
+     the traced call raises IndexError where the untraced one raises another exception (ValueError for min_iter > max_iter):
+     C17_trace_out_of_span_refuted; every non-interference theorem carries `py_pos (length tr) t = Some p`.  (2), (3) series
+     that are NOT float64: the cells of this model are numbers of ONE type `num`, a str / object / int / bool series cannot be
+     expressed, so there is no Coq witness; the implementation builds the snapshot as one NumPy array and coerces mixed dtypes
+     (every value becomes a string next to a str variable, an int beyond 2^53 a float) and raises ValueError / DimensionError only
+     when tracing if an object cell holds a sequence.  The check judges such models on the oracle side only (case kind 'dtype').
+   - The hook-call log is compared up to the SPELLING of the period argument (a negative t and its position are one period), and
+     an invalid `errors=` value is not generated: neither is constrained by the property (second review, common items A, B).
    - REPAIRED SINCE ROUND 1 (the refutation theorems are gone, the positive statements stand in their place): finding #16 and the
      stale-names finding (fix 7d04ae5: C17_trace_noninterference_every_traced_call, C17_retrace_under_other_names_...,
      C17_trace_names_after_run), Trace.names shared with the model / caller (cfb58ac: C17_trace_names_...), Trace objects shared
      after reindex (28b2a9a: C17_reindex_gives_every_kept_period_its_own_trace), None cell after reindex (3b0200f:
-     C17_reindex_new_period_gets_a_trace).  No known finding of C17 is left. *)
+     C17_reindex_new_period_gets_a_trace). *)
 From Coq Require Import ZArith List Bool PrimFloat.
 Import ListNotations.
 Require Import PyBase Solver SolverFacts SolverF SolveAll Tracer TracerSolve TracerNames TracerLinked TracerReindex TracerKw TracerFacts TracerFacts2 TracerFacts3 TracerFacts4 TracerFacts5 TracerF TracerExamples.
